@@ -309,7 +309,7 @@ class Agg:
 
 
 def write_evidence(prop, tier, seed, agg, wall, rule, assumptions, real_stub, extra=None, nviol=0):
-    d = os.path.join(VERIF, "evidence")
+    d = os.environ.get("VERIF_EVIDENCE_DIR") or os.path.join(VERIF, "evidence")
     os.makedirs(d, exist_ok=True)
     hours = max(wall, 1e-9) / 3600.0
     cov = {
